@@ -148,25 +148,25 @@ Qed.
 (* ------------------------------------------------------------------ Message.timestamp_type (see Model.RespView) *)
 (* encode then decode with the field at its default 0: the identity, field included *)
 Lemma c05_tstype_roundtrip d orc now pm bs off :
-  pm_tstype pm = 0 -> plain (pm_msg pm) = true ->
+  wf_pymessage pm = true -> plain (pm_msg pm) = true ->
   py_encode_message now pm = Ok bs ->
   py_decoded_set (dec_message (dec_set d orc) orc (Some bs) off) = [(off, mk_pymessage (wire_view now (pm_msg pm)) (pm_tstype pm))].
 Proof.
-  intros Ht Hp He. unfold py_encode_message in He.
+  intros Ht Hp He. unfold wf_pymessage in Ht. apply Z.eqb_eq in Ht. unfold py_encode_message in He.
   rewrite (dec_message_intact _ orc now (pm_msg pm) bs off He Hp). rewrite Ht. reflexivity.
 Qed.
 
 (* with any other value the message that comes back differs from the one that was encoded *)
 Definition tstype_witness : pymessage := mk_pymessage (mkMessage 1 0 (Some [107]) (Some [118]) (Some 5)) 1.
 Lemma c05_tstype_refuted :
-  plain (pm_msg tstype_witness) = true /\
+  wf_pymessage tstype_witness = false /\ plain (pm_msg tstype_witness) = true /\
   exists bs, py_encode_message 0 tstype_witness = Ok bs /\
              py_decoded_set (dec_message (dec_set 1 marker_oracle) marker_oracle (Some bs) 7)
              = [(7, mk_pymessage (pm_msg tstype_witness) 0)] /\
              mk_pymessage (pm_msg tstype_witness) 0 <> tstype_witness.
 Proof.
-  split; [vm_compute; reflexivity|]. eexists. split; [vm_compute; reflexivity|]. split; [vm_compute; reflexivity|].
-  intros E. discriminate E.
+  split; [reflexivity|]. split; [vm_compute; reflexivity|]. eexists. split; [vm_compute; reflexivity|].
+  split; [vm_compute; reflexivity|]. intros E. discriminate E.
 Qed.
 
 (* against the protocol: attributes bit 3 of a format-1 message IS its timestamp type; the decoder reports 0.
